@@ -9,7 +9,7 @@ const RULE: &str = "1-8 named rule groups (0-2 generated rules each, incl. empty
 
 pub struct Case { pub groups: Vec<Vec<String>>, pub phrase: String }
 
-fn gen(r: &mut Rng) -> Case {
+pub(crate) fn gen(r: &mut Rng) -> Case {
     let cfg = RuleCfg { max_side: 2, ..RuleCfg::default() };
     let ng = r.range(1, 8);
     let mut groups = Vec::new();
@@ -107,7 +107,7 @@ pub fn judge(rep: &mut Report, c: &Case) {
 }
 
 pub fn explore(ctx: &Ctx, shard: usize, n: usize) -> Report {
-    drive::cases(ctx, shard, n, RULE, 0x16, 50_000, 2_000_000, |r, rep, _| { let c = gen(r); judge(rep, &c); })
+    drive::cases(ctx, shard, n, RULE, 0x16, 50_000, 6_000_000, |r, rep, _| { let c = gen(r); judge(rep, &c); })
 }
 
 pub fn replay(_ctx: &Ctx, case: &Value) -> Report {
